@@ -378,12 +378,28 @@ class SpearmanS(TsonisS):
 # ---------------------------------------------------------------------------
 # recurrence family
 
+def _revisit(r, m, kw, fresh_values):
+    """Value for a setter: with probability 1/2 a value this object had
+    before under the same kind of setting (A-B-A histories: returning to an
+    earlier value after a different kind of change must recompute), else a
+    fresh one."""
+    past = [v for (k, v) in m.get("_past", []) if k == kw]
+    if past and r.random() < 0.5:
+        return past[int(r.integers(0, len(past)))]
+    return fresh_values[int(r.integers(0, len(fresh_values)))]
+
+
 RP_SETTERS = {
-    "set_fixed_threshold": lambda r: float(r.choice([0.3, 0.6, 0.9, 1.4])),
-    "set_fixed_threshold_std": lambda r: float(r.choice([0.2, 0.5, 1.0])),
-    "set_fixed_recurrence_rate": lambda r: float(r.choice([0.1, 0.25, 0.5])),
-    "set_fixed_local_recurrence_rate": lambda r: float(r.choice([0.2, 0.4])),
-    "set_adaptive_neighborhood_size": lambda r: float(r.choice([0.2, 0.4])),
+    "set_fixed_threshold": lambda r, m: _revisit(
+        r, m, "threshold", [0.3, 0.4, 0.6, 0.8, 0.9, 1.2, 1.4]),
+    "set_fixed_threshold_std": lambda r, m: _revisit(
+        r, m, "threshold_std", [0.2, 0.5, 1.0]),
+    "set_fixed_recurrence_rate": lambda r, m: _revisit(
+        r, m, "recurrence_rate", [0.1, 0.25, 0.5]),
+    "set_fixed_local_recurrence_rate": lambda r, m: _revisit(
+        r, m, "local_recurrence_rate", [0.2, 0.4]),
+    "set_adaptive_neighborhood_size": lambda r, m: _revisit(
+        r, m, "adaptive_neighborhood_size", [0.2, 0.4]),
 }
 RP_KW = {"set_fixed_threshold": "threshold",
          "set_fixed_threshold_std": "threshold_std",
@@ -427,9 +443,10 @@ class RecurrencePlotS(Subject):
         out = []
         for s in self.setters:
             def f(o, m, r, s=s):
-                v = RP_SETTERS[s](r)
+                v = RP_SETTERS[s](r, m)
                 getattr(o, s)(v)
-                return {**m, "mode": (RP_KW[s], v)}
+                return {**m, "mode": (RP_KW[s], v),
+                        "_past": m.get("_past", []) + [m["mode"]]}
             out.append((s, f))
         return out
 
